@@ -529,7 +529,7 @@ def main():
     corpus = load_corpus()
     runs = corpus + [gen_run(chk.rng, i) for i in range(n_r)]
     impls, results = run_cases(chk, runs)
-    new = 0
+    new, model_only = 0, []
     try:
         guards = api_guards()
     except Exception as e:
@@ -566,10 +566,11 @@ def main():
         if orc and new < 3:
             chk.violation(orc[0][0], "; ".join(m for _, m in orc[:3]), {"run": cfg, "problems": orc[:10], "model_disagreements": mod[:5], "traceback": im.get("traceback")}, found_input=True)
             new += 1
-        elif mod and new < 3:
-            chk.violation("model-correspondence-" + mod[0][0], "; ".join(m for _, m in mod[:3]),
-                          {"run": cfg, "problems": mod[:10], "correspondence": "harness/c12.py counting wrappers vs Model.LearnLoop.learn_call"}, found_input=False)
-            new += 1
+        elif mod and not orc:
+            model_only.append((cfg, mod))          # not confirmed by the oracle: reported AFTER the concrete inputs
+    for cfg, mod in model_only[:max(0, 3 - new)]:
+        chk.violation("model-correspondence-" + mod[0][0], "; ".join(m for _, m in mod[:3]),
+                      {"run": cfg, "problems": mod[:10], "correspondence": "harness/c12.py counting wrappers vs Model.LearnLoop.learn_call"}, found_input=False)
     chk.coverage["evaluations"] = len(runs)
     chk.coverage["traces_validated_against_impl"] = hist["learn_calls"]
     chk.coverage["distinct_nontrivial"] = len(distinct)
